@@ -34,7 +34,9 @@ def failed(code, out):
 
 def main():
     prop = sys.argv[1]
-    src_root = f'/tmp/wt-{prop}/seeded'
+    base = os.environ.get('SEED_SRC', '/tmp/wt-%s') % prop
+    offset = int(os.environ.get('SEED_OFFSET', '0'))
+    src_root = base + '/seeded'
     ks = sys.argv[2:] or sorted(d for d in os.listdir(src_root) if os.path.isdir(os.path.join(src_root, d)))
     for k in ks:
         src = os.path.join(src_root, k)
@@ -47,7 +49,7 @@ def main():
         res = {}
         try:
             shutil.copytree(src_root, os.path.join(wt, 'seeded'))
-            demo = meta.get('demo_cmd', '').replace('<worktree>', wt).replace(f'/tmp/wt-{prop}', wt)
+            demo = meta.get('demo_cmd', '').replace('<worktree>', wt).replace(base, wt)
             # --- without the change
             c0, o0 = sh(demo, wt)
             res['demo_without_change'] = 'pass' if not failed(c0, o0) else 'FAIL'
@@ -70,7 +72,7 @@ def main():
         if not res.get('confirmed'):
             print('   NOT KEPT; demo tail:', res.get('demo_output_tail', '')[-300:].replace('\n', ' | '))
             continue
-        dst = f'/verif/seeded/{prop}-{k}'
+        dst = f'/verif/seeded/{prop}-{int(k) + offset}'
         shutil.rmtree(dst, ignore_errors=True)
         os.makedirs(dst)
         for f in os.listdir(src):
